@@ -28,6 +28,10 @@ BOOL, INT, FLOAT = "bool", "int64", "float64"
 _NPT = {BOOL: _rnp.bool_, INT: _rnp.int64, FLOAT: _rnp.float64}
 
 
+class _Unsupported(Exception):
+    """raised inside the shim where ITS OWN model ends (not a numpy error): the operation is then concretised and delegated"""
+
+
 class AccessBudget(object):
     def __init__(self, limit):
         self.limit = limit
@@ -480,6 +484,25 @@ class Arr(object):
         for o, v in zip(self.offs, r.elems()):
             self.buf[o] = _cast_in(v, self.dtype)
 
+    def __and__(s, o):
+        if isinstance(o, Arr) and s.dtype == BOOL and o.dtype == BOOL:
+            if s.shape != o.shape:
+                DELEGATED["broadcast.and"] = DELEGATED.get("broadcast.and", 0) + 1
+                return _wrap(s.to_numpy() & o.to_numpy())
+            return Arr.new([(SymBool(z3.And(zbool(x), zbool(y))) if (is_sym(x) or is_sym(y)) else (x and y)) for x, y in zip(s.elems(), o.elems())], s.shape, BOOL, s.n)
+        return delegate("bitwise_and", s, o)
+
+    __rand__ = __and__
+
+    def __or__(s, o):
+        if isinstance(o, Arr) and s.dtype == BOOL and o.dtype == BOOL:
+            if s.shape != o.shape:
+                return _wrap(s.to_numpy() | o.to_numpy())
+            return Arr.new([(SymBool(z3.Or(zbool(x), zbool(y))) if (is_sym(x) or is_sym(y)) else (x or y)) for x, y in zip(s.elems(), o.elems())], s.shape, BOOL, s.n)
+        return delegate("bitwise_or", s, o)
+
+    __ror__ = __or__
+
     def __neg__(s):
         if s.dtype == BOOL:
             raise TypeError("The numpy boolean negative, the `-` operator, is not supported")
@@ -583,7 +606,19 @@ class Arr(object):
         return "scalar"
 
     def __getitem__(self, k):
+        try:
+            return self._getitem(k)
+        except (_Unsupported, Inconclusive) as ex:
+            if isinstance(ex, Inconclusive) and "unsupported index" not in str(ex) and "fancy" not in str(ex) and "dimension" not in str(ex):
+                raise
+            DELEGATED["ndarray.__getitem__"] = DELEGATED.get("ndarray.__getitem__", 0) + 1
+            with _rnp.errstate(all="ignore"):
+                return _wrap(self.to_numpy()[_real_key(k)])
+
+    def _getitem(self, k):
         kind = self._key_kind(k)
+        if k is None:
+            raise _Unsupported("newaxis")
         if kind == "nparr":
             k = Arr.from_numpy(k)
             kind = self._key_kind(k)
@@ -602,7 +637,7 @@ class Arr(object):
             if kind == "tuple":
                 if len(k) == 1:
                     return self[k[0]]
-                raise IndexError("too many indices for array: array is 1-dimensional, but %d were indexed" % len(k))
+                raise _Unsupported("multi-axis key on a 1-D array (newaxis / broadcasting idiom)")
             if kind == "fancy":
                 return self._fancy1(k)
             if kind == "mask":
@@ -625,9 +660,11 @@ class Arr(object):
             if kind == "tuple":
                 if len(k) == 1:
                     return self[k[0]]
-                if len(k) != 2:
-                    raise IndexError("too many indices for array")
+                if len(k) != 2 or any(x is None for x in k):
+                    raise _Unsupported("newaxis / more than two axes")
                 i, j = k
+                if isinstance(i, (Arr, list)) or (type(i).__module__ == "numpy" and getattr(i, "ndim", 0) > 0):
+                    raise _Unsupported("pair of index arrays")
                 if isinstance(i, slice):
                     sub = self[i]
                     jk = sub._key_kind(j)
@@ -685,7 +722,7 @@ class Arr(object):
 
     def _fancy1(self, k):
         if k.ndim != 1:
-            raise Inconclusive("2-D fancy index")
+            raise _Unsupported("2-D fancy index")
         out = []
         ks = k.elems()
         if k.n is not None:
@@ -746,6 +783,19 @@ class Arr(object):
         return vals
 
     def __setitem__(self, k, v):
+        try:
+            return self._setitem(k, v)
+        except (_Unsupported, Inconclusive) as ex:
+            if isinstance(ex, Inconclusive) and "unsupported" not in str(ex) and "symbolic column" not in str(ex):
+                raise
+            DELEGATED["ndarray.__setitem__"] = DELEGATED.get("ndarray.__setitem__", 0) + 1
+            real = self.to_numpy()
+            real[_real_key(k)] = _real(v)
+            a = self.fix_len()
+            for o, x in zip(a.offs, real.reshape(-1)):
+                self.buf[o] = _cast_in(_item(x), self.dtype)
+
+    def _setitem(self, k, v):
         kind = self._key_kind(k)
         if kind == "nparr":
             k = Arr.from_numpy(k)
@@ -861,6 +911,8 @@ class Arr(object):
                 return
             if kind == "tuple" and len(k) == 2:
                 i, j = k
+                if isinstance(i, (Arr, list)) or (type(i).__module__ == "numpy" and getattr(i, "ndim", 0) > 0):
+                    raise _Unsupported("pair of index arrays")
                 if isinstance(i, slice):
                     rows = list(range(r))[i]
                     jk = self._key_kind(j)
@@ -924,6 +976,14 @@ def _result_dtype(op, da, db):
     return _join_dtype(da, db)
 
 
+def _real_key(k):
+    if isinstance(k, tuple):
+        return tuple(_real_key(x) for x in k)
+    if isinstance(k, (Arr, SymInt, SymBool, list)):
+        return _real(k)
+    return k
+
+
 def _broadcast_binop(a, b, op, swap):
     # only (r,c) with (c,) and size-1 cases
     if a.ndim == 2 and b.ndim == 1 and a.shape[1] == b.shape[0]:
@@ -934,7 +994,11 @@ def _broadcast_binop(a, b, op, swap):
     if a.ndim == 1 and a.shape[0] == 1:
         x = _out(a.buf[a.offs[0]], a.dtype)
         return b._binop(x, op, not swap)
-    raise ValueError("operands could not be broadcast together with shapes %s %s" % (a.shape, b.shape))
+    # general numpy broadcasting (column x row, ...): concretise and delegate
+    DELEGATED["broadcast." + op] = DELEGATED.get("broadcast." + op, 0) + 1
+    f = _CMP.get(op) or _ARI[op]
+    with _rnp.errstate(all="ignore"):
+        return _wrap(f(b.to_numpy(), a.to_numpy()) if swap else f(a.to_numpy(), b.to_numpy()))
 
 
 def _compress(mask, vals, dtype, force_concrete=False):
@@ -1044,7 +1108,10 @@ def where(cond, *rest):
     if rest:
         if len(rest) != 2:
             raise ValueError("either both or neither of x and y should be given")
-        return _where3(cond, rest[0], rest[1])
+        try:
+            return _where3(cond, rest[0], rest[1])
+        except _Unsupported:
+            return delegate("where", cond, rest[0], rest[1])
     if cond.ndim == 1:
         bits = [zbool(b) for b in cond.elems()]
         if cond.n is not None:
@@ -1074,7 +1141,7 @@ def _where3(cond, x, y):
             if v.shape != cond.shape:
                 if len(v.offs) == 1:
                     return [v.buf[v.offs[0]]] * n, v.dtype
-                raise ValueError("operands could not be broadcast together")
+                raise _Unsupported("where with broadcasting")
             return v.elems(), v.dtype
         return [_item(v)] * n, _dtype_of_scalar(v)
     xs, dx = operand(x)
@@ -1298,6 +1365,116 @@ def dot(a, b):
     return delegate("dot", a, b)
 
 
+def diff(a, n=1):
+    if not isinstance(a, Arr):
+        a = array(a)
+    if a.ndim != 1 or concrete_int(n) != 1:
+        return delegate("diff", a, n)
+    a = a.fix_len()
+    if a.shape[0] < 2:
+        return Arr.new([], (0,), a.dtype if a.dtype != BOOL else BOOL)
+    return a[1:] - a[:-1] if a.dtype != BOOL else (a[1:] != a[:-1])
+
+
+def cumsum(a, axis=None):
+    if not isinstance(a, Arr):
+        a = array(a)
+    if a.ndim != 1 or axis not in (None, 0, -1):
+        return delegate("cumsum", a, axis=axis)
+    a = a.fix_len()
+    out, t = [], 0
+    for x in a.elems():
+        t = t + (x if a.dtype != BOOL else (SymInt(zint(x)) if is_sym(x) else int(x)))
+        out.append(t)
+    return Arr.new(out, (len(out),), INT if a.dtype != FLOAT else FLOAT)
+
+
+def sign(a):
+    if isinstance(a, Arr):
+        if a.dtype == FLOAT:
+            return delegate("sign", a)
+        return Arr.new([(SymInt(z3.If(zint(x) > 0, 1, z3.If(zint(x) < 0, -1, 0))) if is_sym(x) else (x > 0) - (x < 0)) for x in a.elems()], a.shape, INT, a.n)
+    if is_sym(a):
+        return SymInt(z3.If(zint(a) > 0, 1, z3.If(zint(a) < 0, -1, 0)), True)
+    return delegate("sign", a)
+
+
+def clip(a, lo, hi):
+    if isinstance(a, Arr) and a.dtype == INT and not is_sym(lo) and not is_sym(hi) and lo is not None and hi is not None:
+        lo_, hi_ = int(_item(lo)), int(_item(hi))
+        return Arr.new([(SymInt(z3.If(zint(x) < lo_, lo_, z3.If(zint(x) > hi_, hi_, zint(x)))) if is_sym(x) else min(max(x, lo_), hi_)) for x in a.elems()], a.shape, INT, a.n)
+    return delegate("clip", a, lo, hi)
+
+
+def isin(a, test):
+    t = test.fix_len().elems() if isinstance(test, Arr) else list(test)
+    if any(is_sym(x) for x in t):
+        return delegate("isin", a, test)
+    if isinstance(a, Arr):
+        return Arr.new([(SymBool(z3.Or([zint(x) == int(_item(v)) for v in t]) if t else z3.BoolVal(False)) if is_sym(x) else (x in [_item(v) for v in t])) for x in a.elems()], a.shape, BOOL, a.n)
+    if is_sym(a):
+        return SymBool(z3.Or([zint(a) == int(_item(v)) for v in t]) if t else z3.BoolVal(False), True)
+    return delegate("isin", a, test)
+
+
+def array_equal(a, b):
+    if not isinstance(a, Arr):
+        a = array(a)
+    if not isinstance(b, Arr):
+        b = array(b)
+    a, b = a.fix_len(), b.fix_len()
+    if a.shape != b.shape:
+        return False
+    r = all_(a == b)
+    return r
+
+
+def maximum(a, b):
+    return _elementwise2(a, b, lambda x, y: x >= y)
+
+
+def minimum(a, b):
+    return _elementwise2(a, b, lambda x, y: x <= y)
+
+
+def _elementwise2(a, b, pick_first):
+    if isinstance(a, Arr) or isinstance(b, Arr):
+        A = a if isinstance(a, Arr) else None
+        B = b if isinstance(b, Arr) else None
+        base = A if A is not None else B
+        xs = A.elems() if A is not None else [_item(a)] * len(base.offs)
+        ys = B.elems() if B is not None else [_item(b)] * len(base.offs)
+        dt = _join_dtype(A.dtype if A is not None else _dtype_of_scalar(a), B.dtype if B is not None else _dtype_of_scalar(b))
+        out = []
+        for x, y in zip(xs, ys):
+            c = pick_first(x, y)
+            out.append(_simpl(_ite(zbool(c), x, y, dt)) if is_sym(c) else (x if c else y))
+        return Arr.new(out, base.shape, dt, base.n)
+    c = pick_first(a, b)
+    if is_sym(c):
+        return a if bool(c) else b
+    return a if c else b
+
+
+class _AddUfunc(object):
+    """numpy.add: callable, with .at (unbuffered in-place accumulation) and .reduce"""
+
+    def __call__(self, a, b):
+        return a + b
+
+    def at(self, arr, idx, vals):
+        if not isinstance(arr, Arr) or arr.ndim != 1:
+            raise Inconclusive("add.at on a non 1-D array")
+        idx = idx if isinstance(idx, Arr) else array(idx)
+        idx = idx.fix_len()
+        vs = arr._values_for(vals, len(idx.offs))
+        for i, v in zip(idx.elems(), vs):
+            arr[i] = arr[i] + v
+
+    def reduce(self, a, axis=0):
+        return sum_(a, axis=axis if isinstance(a, Arr) and a.ndim == 2 else None)
+
+
 def _real(x):
     """convert shim values to real numpy / Python values (concretising)."""
     if isinstance(x, Arr):
@@ -1469,7 +1646,8 @@ def make_module(random_impl=None):
     """the object that `import numpy` / `from numpy import ...` resolves to inside loaded modules."""
     m = types.ModuleType("numpy")
     m.__dict__.update(dict(
-        array=array, asarray=array, arange=arange, dot=dot, flatnonzero=flatnonzero, nonzero=nonzero, count_nonzero=count_nonzero, zeros=zeros, ones=ones, zeros_like=zeros_like, where=where, sum=sum_, max=max_,
+        array=array, asarray=array, diff=diff, cumsum=cumsum, sign=sign, clip=clip, isin=isin, array_equal=array_equal, maximum=maximum, minimum=minimum,
+        add=_AddUfunc(), arange=arange, dot=dot, flatnonzero=flatnonzero, nonzero=nonzero, count_nonzero=count_nonzero, zeros=zeros, ones=ones, zeros_like=zeros_like, where=where, sum=sum_, max=max_,
         min=min_, amax=max_, amin=min_, argmax=argmax, argsort=argsort, all=all_, any=any_, abs=abs_, absolute=abs_,
         unique=unique, intersect1d=intersect1d, union1d=union1d, median=median, log=log, log2=log2,
         ndarray=Arr, int64=_rnp.int64, float64=_rnp.float64, bool_=_rnp.bool_, pi=_rnp.pi, e=_rnp.e, inf=_rnp.inf,
